@@ -31,4 +31,16 @@ PROPS = {
                 "Non-trivial: some line of the body begins with '-- ' or '>'; distinct by input bytes.",
         "assumptions": ["Quote may refuse any input (the statement only constrains accepted inputs)"],
     },
+    "C08": {
+        "pkg": "c08_diff",
+        "level": "exploration",
+        "technique": "small-scope exhaustive enumeration + rapid property tests + native fuzzing; oracle = independent strict unified-diff reader/applier (forward and reverse)",
+        "level_text": "All pairs of texts of <= 5 lines over a 3 (quick) / 4 (thorough) letter line alphabet with and without final newline, random edited texts up to 80 lines with duplicates and diff look-alike lines, and a fuzz campaign are judged by an independent count-driven unified-diff applier: empty iff identical, header, hunk order/overlap/counts, forward application = new, reverse application = old.",
+        "level_note": "Trusted: the 200-line applier in harness/c08_diff/applier.go, itself validated on the repository's 12 golden diffs on every run.",
+        "shards": {"quick": 1, "thorough": 16},
+        "fuzz": [{"name": "FuzzDiff", "seconds": 90}],
+        "rule": "pairs (old,new): (i) exhaustive over all texts of <=5 lines from {a,b,c} (quick) / <=5 lines from {a,b,c,''} (thorough), each with/without final newline; (ii) rapid: old = 0-80 lines from a pool of mostly-unique lines, duplicates and diff look-alikes, new = old after 0-6 insert/delete/replace/move edits (sparse or dense), final newline drawn per side; (iii) thorough: native fuzzing of byte pairs. "
+                "Non-trivial: old != new and (>=2 hunks, or a side lacks its final newline, or a line occurs on both sides more than once, or a diff look-alike line is present); for the exhaustive scope every differing pair counts (all have duplicates or newline variants). Distinct by (old,new) bytes.",
+        "assumptions": ["file names passed to Diff contain no newline (names are fixed to old/new)"],
+    },
 }
